@@ -359,6 +359,86 @@ def loops_to_comprehensions(fn_node: ast.AST) -> ast.AST:
     return f
 
 
+def unroll_literal_loops(fn_node: ast.AST) -> ast.AST:
+    """A parent-linked clone in which `for a, b in ((x1, y1), (x2, y2)): BODY` (the iterable a tuple literal - directly or through a local
+    bound once to it - of names / attribute chains / constants or tuples of them; BODY without break/continue/else and without re-binding
+    the loop variables) is BODY with (a, b) := (x1, y1) followed by BODY with (a, b) := (x2, y2).  Exact: same statements in the same order."""
+    from .srcmodel import set_parents
+    f = clone(fn_node)
+    set_parents(f)
+    counts: Dict[str, int] = {}
+    for n in ast.walk(f):
+        if isinstance(n, ast.Name) and isinstance(n.ctx, ast.Store):
+            counts[n.id] = counts.get(n.id, 0) + 1
+    once = {n.targets[0].id: n.value for n in ast.walk(f) if isinstance(n, ast.Assign) and len(n.targets) == 1 and isinstance(n.targets[0], ast.Name)
+            and counts.get(n.targets[0].id) == 1 and isinstance(n.value, ast.Tuple)}
+
+    def simple(e) -> bool:
+        if isinstance(e, ast.Constant):
+            return True
+        while isinstance(e, ast.Attribute):
+            e = e.value
+        return isinstance(e, ast.Name)
+    changed = False
+    for owner in list(ast.walk(f)):
+        for fld in ('body', 'orelse', 'finalbody'):
+            blk = getattr(owner, fld, None)
+            if not isinstance(blk, list):
+                continue
+            i = 0
+            while i < len(blk):
+                lp = blk[i]
+                i += 1
+                if not isinstance(lp, ast.For) or lp.orelse:
+                    continue
+                it = lp.iter
+                if isinstance(it, ast.Name) and it.id in once:
+                    it = once[it.id]
+                if not isinstance(it, ast.Tuple) or not it.elts or len(it.elts) > 12:
+                    continue
+                tnames = [lp.target.id] if isinstance(lp.target, ast.Name) else \
+                    [e.id for e in lp.target.elts] if isinstance(lp.target, ast.Tuple) and all(isinstance(e, ast.Name) for e in lp.target.elts) else None
+                if tnames is None:
+                    continue
+                rows = []
+                for e in it.elts:
+                    vals = [e] if isinstance(lp.target, ast.Name) else list(e.elts) if isinstance(e, ast.Tuple) else None
+                    if vals is None or len(vals) != len(tnames) or not all(simple(v) for v in vals):
+                        rows = None
+                        break
+                    rows.append(vals)
+                if rows is None:
+                    continue
+                if any(isinstance(x, (ast.Break, ast.Continue)) for b in lp.body for x in ast.walk(b)) or \
+                        any(isinstance(x, ast.Name) and isinstance(x.ctx, (ast.Store, ast.Del)) and x.id in tnames for b in lp.body for x in ast.walk(b)):
+                    continue
+                # the loop variables keep their last value after the loop: only unroll when nothing reads them afterwards
+                def rebound_by_own_loop(x) -> bool:
+                    q = parent(x)
+                    while q is not None and q is not f:
+                        if isinstance(q, ast.For) and q is not lp and any(isinstance(t, ast.Name) and t.id == x.id for t in ast.walk(q.target)):
+                            return True
+                        q = parent(q)
+                    return False
+                after = [x for x in ast.walk(f) if isinstance(x, ast.Name) and x.id in tnames and isinstance(x.ctx, ast.Load)
+                         and not any(x is y for y in ast.walk(lp)) and not rebound_by_own_loop(x)]
+                if after:
+                    continue
+                new: List[ast.stmt] = []
+                for vals in rows:
+                    env = dict(zip(tnames, vals))
+                    for b in lp.body:
+                        new.append(substitute(b, env, depth=1))
+                blk[i - 1:i] = new
+                i += len(new) - 1
+                changed = True
+    if not changed:
+        return fn_node
+    ast.fix_missing_locations(f)
+    set_parents(f)
+    return f
+
+
 def canonicalise_module(tree: ast.Module) -> None:
     """In place: every function of the module gets its attribute aliases inlined (the continue-guard un-nesting of canonical_function
     is left to the rules that ask for it: several rules are written against the guard-clause form)."""
